@@ -104,8 +104,30 @@ func evalArg(root map[string]any, at, arg any) (val any) {
 				val = ta.First(root)
 			}
 		}
+	case []any, map[string]any:
+		// A container literal of the plan must not be shared with the data
+		// or later steps would modify the plan itself.
+		val = dupLiteral(ta)
 	default:
 		val = arg
 	}
 	return val
+}
+
+func dupLiteral(v any) any {
+	switch tv := v.(type) {
+	case []any:
+		a := make([]any, len(tv))
+		for i, m := range tv {
+			a[i] = dupLiteral(m)
+		}
+		v = a
+	case map[string]any:
+		o := make(map[string]any, len(tv))
+		for k, m := range tv {
+			o[k] = dupLiteral(m)
+		}
+		v = o
+	}
+	return v
 }
